@@ -130,7 +130,7 @@ DFItem(v) ==
     [] v.k = "iris" -> ListOf(MapSeq(v.e, Iri))
     [] v.k = "list" -> ListOf([i \in 1..Len(v.e) |-> DFItem(v.e[i])])
     [] v.k = "obj" -> [k |-> "obj", g |-> v.g, ptr |-> TRUE, p |-> DFMap(Props(v.g), v.p)]
-DFMap(rows, p) == [t \in DOMAIN p |-> DFProp(RowKind(rows, t), p[t])]
+DFMap(rows, p) == [t \in {u \in DOMAIN p : ~IsEmptyText(p[u])} |-> DFProp(RowKind(rows, t), p[t])]     \* an all-empty text list is absent (as in NFMap)
 DFProp(kind, x) ==
   CASE kind = "item" -> LET y == DFItem(x) IN IF y.k = "list" /\ Len(y.e) = 1 THEN y.e[1] ELSE y
     [] kind = "items" -> DFItem(x)
